@@ -134,7 +134,13 @@ pub fn real_vs_stub() -> Value {
 pub fn finish(property: &str, violations: Vec<Violation>, known: &Known) -> i32 {
     let mut code = 0;
     let mut seen_known: Vec<String> = Vec::new();
+    let mut seen_sig: Vec<String> = Vec::new();
     for v in &violations {
+        let sig = format!("{}:{}", v.clause, v.signature);
+        if seen_sig.contains(&sig) {
+            continue;
+        }
+        seen_sig.push(sig);
         if let Some(text) = known.matches(v) {
             let line = format!("KNOWN-FINDING: property={} {}:{} {}", v.property, v.clause, v.signature, text);
             if !seen_known.contains(&line) {
@@ -144,6 +150,7 @@ pub fn finish(property: &str, violations: Vec<Violation>, known: &Known) -> i32 
         } else {
             let path = write_replay(v);
             println!("--- violation of {} ({}) ---\n{}", v.property, v.clause, v.detail);
+            println!("  (key for KNOWN_FINDINGS.txt, should this turn out to be a genuine defect that is recorded rather than repaired: {}:{})", v.clause, v.signature);
             println!("VIOLATION property={} replay={}", v.property, path);
             code = 1;
         }
